@@ -15,3 +15,16 @@ package quicswarm
 //@     set canonical = true
 //@   after call ShakeSum256:
 //@     set shake = true
+
+// an address parses only if its identity part decoded without error (and the inner address parsed)
+//@ func ParseAddr
+//@   noframe
+//@   ghostvar idok = false
+//@   ghostvar innerok = false
+//@   ensures [rejects] ret1 == nil ==> ghost(idok) && ghost(innerok)
+//@   after call (*PeerID).UnmarshalText:
+//@     set idok = res0 == nil
+//@   after call inner:
+//@     set innerok = res1 == nil
+//@   fnspec inner:
+//@     pure
